@@ -458,7 +458,8 @@ POVS = (0.0, 0.25, 0.5, 0.75)
 
 def func_lattice(thorough):
     """(index, layout, method, nxseg, pov, length in segments, gain walk).
-    quick: every quick layout x everything; the whole gain walk on the 4-segment records.
+    quick: every quick layout x method x overlap x (nxseg, length) in {(64, 4), (64, 6.5), (128, 4)}; the reduced gain walk on the
+    4-segment records, two gain vectors on the 6.5-segment ones.
     thorough: every layout (3..9 channels, 1..3 references, 2..4 setups) x method x overlap at (nxseg 64, 4 segments) with
     the full gain product; the other (nxseg, length) combinations on the layouts of <= 6 channels with the reduced gain walk;
     nxseg 2048 on <= 5 channels."""
@@ -469,6 +470,8 @@ def func_lattice(thorough):
                 for nxseg in ((64, 128, 256, 2048) if thorough else (64, 128)):
                     for nseg in (4, 6.5):
                         if not thorough:
+                            if nxseg == 128 and nseg != 4:
+                                continue
                             walk = "reduced" if nseg == 4 else "two"
                         elif (nxseg, nseg) == (64, 4):
                             walk = "full"
@@ -510,7 +513,7 @@ def explore(ctx):
         "layouts": {"count": len(lay), "channels": sorted({l[0] for l in lay}), "references": sorted({l[1] for l in lay}),
                     "setups": sorted({len(l[2]) for l in lay}), "what": "every composition of the roving channels into setups of >= 1 channel"},
         "function_route": {"items": len(F), "methods": ["per", "cor"], "nxseg": sorted({c[3] for c in F}), "pov": list(POVS),
-                           "length_in_segments": [4, 6.5], "gains": list(GAINS),
+                           "nxseg_x_length": sorted({(c[3], c[5]) for c in F}), "gains": list(GAINS),
                            "note": func_lattice.__doc__,
                            "different_records": "items with the full/reduced gain walk (quick: nxseg 64 only) are repeated with the setups cut from consecutive stretches of a "
                                                 "longer recording (all ones + one mixed gain vector): relations (ii) and (iii) only",
